@@ -12,7 +12,8 @@ MANIFEST = {
     "technique": "Rocq proof over the Factory/Resolve model + vm_compute correspondence on generated wiring scenarios",
 }
 
-PROFILES = [(Profile(p_fault=0.9, n_faults=(1, 2), n_procs=(0, 2), p_valid=0.7, p_cfg=0.4, p_cfg_unsat=0.3, p_loader_fail=0.05, p_runner=0.4), 480, 5000),
+PROFILES = [(Profile(p_fault=0.9, n_faults=(1, 2), n_procs=(0, 2), p_valid=0.7, p_cfg=0.4, p_cfg_unsat=0.3, p_loader_fail=0.05, p_runner=0.4,
+                     kind_weights={"ptr": 4, "iface": 4, "sptr": 2, "siface": 3, "name": 3, "any": 0.3, "func": 1, "other": 0.8}), 480, 5000),
             (Profile(p_fault=0.3, n_procs=(1, 3), proc_points=0.7, p_valid=0.7, p_cycle_bias=0.3, fields=(1, 3)), 120, 1000)]
 
 RULE = 'base scenarios x one or two faults (required point, AfterPropertiesSet, Init, processor callback, loader, runner, required config value); non-trivial = scenario contains a fault or an unsatisfiable required point'
